@@ -92,6 +92,7 @@ func main() {
 	dump := flag.Bool("dump", false, "print the registry as JSON (used by tools/gen_manifest.py)")
 	dumpFuncs := flag.Bool("dumpfuncs", false, "print the keys of all non-test module functions (regenerates checker/baseline_funcs.txt)")
 	dumpFields := flag.Bool("dumpfields", false, "print the struct fields of the module (regenerates checker/baseline_fields.txt)")
+	patch := flag.String("patch", "", "with -all: apply this unified diff to the source in memory first (nothing is written under /repo)")
 	all := flag.Bool("all", false, "development aid: load once, evaluate every property, print the obligations that do not hold (no evidence written)")
 	replay := flag.String("replay", "", "replay file written for a violation: re-evaluates that rule on the current tree")
 	flag.Parse()
@@ -156,7 +157,8 @@ func main() {
 		}
 		var ks []string
 		for _, f := range p.NonTestFuncs() {
-			ks = append(ks, f.Key)
+			sg := sigString(f)
+			ks = append(ks, f.Key+"\t"+sg)
 		}
 		sort.Strings(ks)
 		fmt.Println(strings.Join(ks, "\n"))
@@ -191,7 +193,7 @@ func main() {
 	}
 	if *all {
 		abs, _ := filepath.Abs(*repo)
-		os.Exit(runAll(abs, *verif))
+		os.Exit(runAll(abs, *verif, *patch))
 	}
 	prop := registry[*propID]
 	if prop == nil {
@@ -406,9 +408,18 @@ func runSelfTest(prop *Property, repo string) map[string]any {
 // runAll evaluates every registered property on one load of the repository and prints the
 // obligations that neither hold nor match a known finding. Used by tools/try_seed.sh and
 // tools/try_refactor.sh; writes nothing.
-func runAll(repo, verif string) int {
+func runAll(repo, verif, patch string) int {
 	verifDir = verif
-	p, err := Load(LoadConfig{Dir: repo})
+	var ov map[string][]byte
+	if patch != "" {
+		var why string
+		ov, why = applyUnifiedDiff(repo, patch)
+		if ov == nil {
+			fmt.Println("ALL: patch not applicable:", why)
+			return 2
+		}
+	}
+	p, err := Load(LoadConfig{Dir: repo, Overlay: ov})
 	if err != nil {
 		fmt.Println("ALL: cannot load:", err)
 		return 1
